@@ -31,6 +31,7 @@ def cases():
         "unwrap": st.sampled_from(["next", "next", "next", "none", "prune", "self", "back"]),
         "elab": st.lists(st.sampled_from(["desc", "children", "inner"]), unique=True, max_size=3),
         "objto": st.sampled_from([None, None, None, None, 0, 1, 2, 3, 4]),
+        "eq": st.sampled_from([None, None, None, None, "true", "raise"]),
         "falsy": st.sampled_from([False, False, False, True]),
     })
     gcm = st.fixed_dictionaries({
